@@ -52,6 +52,17 @@ def fock_delta(sf, spec, refm, cutoff, pure):
 
 
 def check_program(ctx, sf, spec, fock=True, cutoff=9):
+    """guard: an exception raised while evaluating a program on the real code is a failing input, not a harness crash"""
+    try:
+        _check_program(ctx, sf, spec, fock, cutoff)
+    except Exception as e:  # noqa: BLE001
+        import traceback
+        where = traceback.extract_tb(e.__traceback__)[-1]
+        ctx.fail(f"evaluation-raises:{type(e).__name__}", f"evaluating a program raised {type(e).__name__}: {e} "
+                 f"({where.name}:{where.lineno})", dict(kind="program", spec=spec, hbar=sf.hbar))
+
+
+def _check_program(ctx, sf, spec, fock=True, cutoff=9):
     """run one program everywhere; ctx.fail on a disagreement.  Returns nothing."""
     ref = sim.reference(spec, sf.hbar)
     refm = ref.alpha_N_M()
